@@ -84,7 +84,10 @@ def native(req, timeout=300):
     except subprocess.TimeoutExpired:
         return {"status": "error", "desc": "native replay timed out"}
     try:
-        return json.loads(p.stdout)
+        txt = p.stdout
+        if "@@PYVC-JSON@@" in txt:
+            txt = txt.rsplit("@@PYVC-JSON@@", 1)[1]
+        return json.loads(txt)
     except Exception:
         return {"status": "error", "desc": f"native runner produced no JSON: {p.stdout[-500:]} {p.stderr[-1500:]}"}
 
